@@ -535,6 +535,8 @@ def camp_c06(rnd, tier):
     for kind in ["RSN", "RSW"]:
         o = b.newb(kind, "default")
         bit_rs_queries(b, o, Seqn.from_values([]), rnd)
+    # positions beyond 2^32
+    big_bits(b, rnd, ["RSN", "RSW"], nobj=1 if tier == "quick" else 2)
     return b
 
 
@@ -603,6 +605,37 @@ def darray_inputs(rnd, tier):
     return out
 
 
+def big_bits(b, rnd, kinds, nobj=1):
+    """bit structures whose tail lies beyond position 2^32 (`base` leading zeros): every answer is
+    that of the tail shifted by base; 32-bit truncation of a stored or computed position shows"""
+    for _ in range(nobj):
+        base = (1 << 32) + rnd.choice([0, 1, 5, 511, 70001])
+        bit = 1
+        runs = darray_group(rnd, rnd.choice(["sparse", "exact_sparse"]), bit) + darray_group(rnd, "dense", bit) \
+            + darray_group(rnd, "sparse", bit) + darray_group(rnd, rnd.choice(["partial", "partial_span65536"]), bit) + [([0], rnd.choice([0, 3, 700]))]
+        s = Seqn.from_runs(runs)
+        vals = s.values()
+        n, ones = len(vals), sum(vals)
+        zeros = n - ones
+        for kind in kinds:
+            b.reset()
+            o = b.newbig(kind, base, s)
+            b.metabig(o)
+            rel = sorted(set([-70000, -513, -1, 0, 1, 2, 63, 64, 511, 512, n // 2, n - 2, n - 1, n, n + 1, n + 70] + [rnd.randrange(n) for _ in range(12)]))
+            b.qbig(o, "get", rel)
+            if kind in ("RSN", "RSW"):
+                b.qbig(o, "rank1", rel)
+                b.qbig(o, "rank0", rel)
+            if kind in ("RSN", "RSW", "DA0", "DA1"):
+                ks = sorted(set([0, 1, 2, 31, 32, 1023, 1024, 1025, 2047, 2048, ones // 2, ones - 2, ones - 1, ones, ones + 1] + [rnd.randrange(max(1, ones)) for _ in range(12)]))
+                b.qbig(o, "select1", [k for k in ks if k >= 0], form="abs")
+            if kind in ("RSN", "RSW", "DA1"):
+                b.qbig(o, "select0", [0, 1, 1023, 1024, 65536, (1 << 30) - 1], form="abs")
+                js = sorted(set([-2, -1, 0, 1, 2, zeros // 2, zeros - 1, zeros, zeros + 1] + [rnd.randrange(max(1, zeros)) for _ in range(8)]))
+                b.qbig(o, "select0", js, form="rel")
+            b.drop(o)
+
+
 def camp_c07(rnd, tier):
     b = Beh()
     paths = rotate(["new", "bools", "positions"], rnd)
@@ -625,6 +658,8 @@ def camp_c07(rnd, tier):
     for kind in ["DA0", "DA1"]:
         o = b.newb(kind, "default")
         bit_rs_queries(b, o, Seqn.from_values([]), rnd, rank=False, select0=(kind == "DA1"))
+    # positions beyond 2^32 (the zeros inventory of DA1 over 2^32 leading zeros takes ~10 s: thorough only)
+    big_bits(b, rnd, ["DA0"] if tier == "quick" else ["DA0", "DA1"], nobj=1 if tier == "quick" else 2)
     return b
 
 
@@ -869,6 +904,8 @@ def camp_c08(rnd, tier):
     o = b.newb("BVM", "bools", Seqn.from_values([1, 0, 1]))
     b.mut(o, "set_bits", a=[2, 2], w=[0])
     b.meta(o)
+    # positions beyond 2^32: len, counters and get of a vector with 2^32 leading zeros
+    big_bits(b, rnd, ["BV"] if tier == "quick" else ["BV", "BVM"])
     return b
 
 
